@@ -128,6 +128,12 @@ pub fn ref_stream(ctx: &DefCtx, src: &[u8], from: usize) -> RefStream {
                 let mut item_end = end;
                 let mut h = 0;
                 if let Some(cb) = &p.cb {
+                    if cb.salt == vmon::spec::BUILTIN_SKIP {
+                        // logos::skip: no recording callback runs, the match is simply skipped
+                        rs.skips.push((pos, end, leaf));
+                        pos = end;
+                        continue;
+                    }
                     h = decision_hash(cb.salt, text);
                     let mut bumped = 0;
                     if cb.bump {
